@@ -98,6 +98,8 @@ def run_property(prop, tier, replay=None):
                 if "fixed" in fam:
                     scheds += fam["fixed"](tier)
                 for ex in fam.get("exports", []):
+                    if tier not in ex.get("tiers", ("quick", "thorough")):
+                        continue
                     consts = dict(ex["constants"])
                     consts.update(ex.get(tier, {}))
                     cfg = os.path.join(wd, "%s-export-%s.cfg" % (ex["module"], ex.get("name", "x")))
